@@ -190,11 +190,12 @@ func init() {
 	}, oracleNoPanic)
 	{
 		base := props["C08"]
-		props["C08"] = propRun{rule: base.rule + "; scope stage: command paths with occurrences of spellings that several commands of the path declare (the innermost declaration must receive the value, the outer ones stay untouched) and of options of commands outside the path (ErrUnknownFlag), expected outcome computed independently; words stage: paths of command words given by name or by alias (with and without PassAfterNonOption), a non-command word and further tokens behind a command whose subcommands-optional mark is set independently of its parent's: active chain, ErrCommandRequired / ErrUnknownCommand / ordinary argument stated from the public model; late stage: a parser that was already used for a call (and a completion) down some command path is given a further option group on a command of that path and a further subcommand (with an alias) below its end: the new option is accepted from the end of the path onwards, the new word selects the new command", run: func(c *Ctx) {
+		props["C08"] = propRun{rule: base.rule + "; scope stage: command paths with occurrences of spellings that several commands of the path declare (the innermost declaration must receive the value, the outer ones stay untouched) and of options of commands outside the path (ErrUnknownFlag), expected outcome computed independently; words stage: paths of command words given by name or by alias (with and without PassAfterNonOption), a non-command word and further tokens behind a command whose subcommands-optional mark is set independently of its parent's: active chain, ErrCommandRequired / ErrUnknownCommand / ordinary argument stated from the public model; late stage: a parser that was already used for a call (and a completion) down some command path is given a further option group on a command of that path and a further subcommand (with an alias) below its end: the new option is accepted from the end of the path onwards, the new word selects the new command; namespaced stage: an ancestor's --db.host (namespaced group) typed in front of, between and behind the command words while the command declares a plain --host, a --db.host of its own, or nothing", run: func(c *Ctx) {
 			base.run(c)
 			checkC08Scope(c, budget(c.Tier, 1500, 60000))
 			checkC08Words(c, budget(c.Tier, 1200, 50000))
 			checkC08Late(c, budget(c.Tier, 600, 20000))
+			checkC08Namespaced(c, budget(c.Tier, 300, 10000))
 		}}
 	}
 	parseProp("C09", caseRule+"emphasis: executable commands at every level, faults injected in otherwise valid vectors, CommandHandler", 2500, 100000, func(p *Profile) {
@@ -206,11 +207,12 @@ func init() {
 	}, oracleNoPanic, oracleExec, oracleConserved)
 	{
 		base := props["C09"]
-		props["C09"] = propRun{rule: base.rule + "; dispatch stage: command trees with SubcommandsOptional set independently on the parser and every command, executable commands at every level, argument vector = a path of command words stopping at a random depth; expected outcome stated from the public model (ErrCommandRequired and nothing runs, or exactly one dispatch of the innermost command); bad-positional stage: a word that the positional field cannot take, reaching it as a plain word, behind the terminator, behind the first plain word under PassAfterNonOption or as an unknown option under IgnoreUnknown: an error and no CommandHandler call; shadowed-required stage: a required option of an outer level whose names the selected command declares again for an option of its own: still required (ErrRequired naming it, nothing runs) unless given in front of the command word", run: func(c *Ctx) {
+		props["C09"] = propRun{rule: base.rule + "; dispatch stage: command trees with SubcommandsOptional set independently on the parser and every command, executable commands at every level, argument vector = a path of command words stopping at a random depth; expected outcome stated from the public model (ErrCommandRequired and nothing runs, or exactly one dispatch of the innermost command); bad-positional stage: a word that the positional field cannot take, reaching it as a plain word, behind the terminator, behind the first plain word under PassAfterNonOption or as an unknown option under IgnoreUnknown: an error and no CommandHandler call; shadowed-required stage: a required option of an outer level whose names the selected command declares again for an option of its own: still required (ErrRequired naming it, nothing runs) unless given in front of the command word; outer-word stage: below a command the name or alias of a command of an outer level is an unknown command (nothing runs) where a subcommand is required, an ordinary argument of the one command that runs otherwise", run: func(c *Ctx) {
 			base.run(c)
 			checkC09Dispatch(c, budget(c.Tier, 1200, 50000))
 			checkC09BadPositional(c, budget(c.Tier, 400, 10000))
 			checkC09Shadowed(c, budget(c.Tier, 300, 10000))
+			checkC09OuterWord(c, budget(c.Tier, 200, 6000))
 		}}
 	}
 	parseProp("C10", caseRule+"emphasis: positional arguments of all kinds interleaved with options and the terminator", 2500, 100000, func(p *Profile) {
